@@ -12,8 +12,9 @@ CLAIMS = {
             'Every string over the stated alphabets (all single printable characters incl. TAB and 3 non-ASCII code '
             'points, all pairs, class-representative triples, quote-alphabet strings up to length 6 in the thorough '
             'tier) is placed in every argument position of a generated build script (command argument/word/'
-            'environment, build_step, test, test_driver children, compile/link/global options, define values, include '
-            'directories); bfg9000 generates the Makefile, the real make and sh run it, and the stub toolchain records '
+            'environment, build_step, test, test_driver children, compile/link/global options in list form and as one '
+            'string that bfg9000 splits by sh rules, CPPFLAGS/CFLAGS/LDFLAGS/LDLIBS at configure time, define values, '
+            'include directories, files and directories named inside a command); bfg9000 generates the Makefile, the real make and sh run it, and the stub toolchain records '
             'the argv/environ each process received; the oracle is identity. Exhaustive within the bounds; batches '
             'only raise suspicion, singletons decide, candidates are re-confirmed twice through the CLI.',
             'trusted: the recording stub (stubs/recorder.c), GNU make 4.3 and dash as the downstream interpreters; '
@@ -153,11 +154,12 @@ CLAIMS['C19'] = (
 CLAIMS['C08'] = (
     'model_checking',
     'explicit-state breadth-first exploration of edit histories on real project trees; regeneration triggered by the real make / refninja through the generated rule; differential oracle against a fresh configure',
-    'For 4 (quick) / 5 (thorough) project variants using find_files (single pattern; several bases with extra and '
+    'For 5 (quick) / 6 (thorough) project variants using find_files (single pattern; several bases with extra and '
     'exclude; platform filter and cache=False; directory()/header_directory(include=); submodule + options + '
-    'pkg-config) and both backends, breadth-first search to depth 2/3 over 12 edit operations (add matching / '
-    'non-matching / extra / excluded file, remove, rename, add and remove directories, edit and touch build.bfg, edit '
-    'options/submodule script) from the built initial state and every reached state (snapshots carry the real build '
+    'pkg-config; a --toolchain file) and both backends, breadth-first search to depth 2/3 over 18 edit operations '
+    '(add matching / non-matching / extra / excluded file, remove, rename, add and remove directories, add an empty '
+    'directory and later fill it, edit and touch build.bfg, edit options/submodule script, stop using find_files, '
+    'edit a newly included submodule, drop a line from / extend the toolchain file) from the built initial state and every reached state (snapshots carry the real build '
     'tree along). After every edit the backend tool itself is run; oracles at every node: build files byte-identical '
     'to a fresh configure into the same path with the same saved configuration (auxiliary files as sets), and a '
     'second run invokes bfg9000 zero times (counted by a wrapper in BFG9000=).',
@@ -182,11 +184,13 @@ CLAIMS['C10'] = (
 CLAIMS['C06'] = (
     'exploration',
     'exhaustive enumeration of build scripts (<=2 steps) x configuration product; pairwise differential between the Make build, the Ninja build (refninja) and compile_commands.json, observed through the recording stub toolchain',
-    'Every program of the typed enumeration (357 with <=2 steps) x 2 (quick) / 24 (thorough) configurations (library '
+    'Every program of the typed enumeration (427 with <=2 steps) x 2 (quick) / 24 (thorough) configurations (library '
     'mode, prefix with a space, global options, CFLAGS/CPPFLAGS/LDFLAGS/LDLIBS) is configured for both backends from '
     'one script. Compared without expected values: buildable target sets (Make database vs manifest, helper nodes '
     'contracted); per step the program, arguments, working directory and environment actually received; the set of '
-    're-executed steps after modifying each source file; and every compile_commands.json entry against the process '
+    're-executed steps after modifying each source file and for an immediately repeated build; every product that '
+    'consumes another step\'s product built alone from the configured tree (its steps\' commands must equal those of '
+    'the full build: a command may not depend on the goal it was reached through); and every compile_commands.json entry against the process '
     'the backend started for that output (plus: every compile/link/copy step has an entry).',
     'trusted: refninja; the documented Ninja-only colour flag is removed before comparing',
     'DESIGN.md §6 C06')
@@ -196,7 +200,8 @@ CLAIMS['C04'] = (
     'bounded exhaustive enumeration of path-component names x roles x backends, observed on disk through the real make / refninja; run-time feasibility witnesses from hand-written reference Makefiles',
     'Every name of the shapes c, xc, cx, xcy for each printable ASCII character except the separators (thorough: plus '
     'every pair of special characters in the middle) is used as source file, source directory, named output, output '
-    'sub-directory, copied file and find_files directory on both backends. Observed per (name, role): the step creates '
+    'sub-directory, copied file, find_files directory whose results are copied, and find_files directory whose '
+    'results feed a plainly named step, on both backends. Observed per (name, role): the step creates '
     'the file at exactly the expected path and nowhere else, a second build runs nothing, modifying the prerequisite '
     're-makes exactly the consuming step, clean removes the outputs only, adding a file to a walked directory '
     'regenerates. A (name, role) pair is demanded of bfg9000 only if a hand-written reference Makefile can express '
@@ -209,7 +214,8 @@ CLAIMS['C04'] = (
 CLAIMS['C07'] = (
     'model_checking',
     'explicit-state BFS over edit histories of a generated C project built with the real gcc, make/refninja and bfg9000-depfixer; reference include scanner as oracle',
-    'For 7 header-name classes (plain, space, #, $, %, leading ~, colon/parentheses) and both backends, a small C '
+    'For 7 header-name classes (plain, space, #, $, %, leading ~, colon/parentheses) and 2 object-path classes '
+    '(executable and source directory names with a space / with $ and #) and both backends, a small C '
     'project whose program output is a function of its file contents is built with the real gcc through a logging '
     'wrapper; breadth-first search to depth 2/3 over edit operations (modify each header/source, add a header, drop '
     'an include and delete the header, rename a transitively included header, clean) from the built state and every '
